@@ -80,11 +80,15 @@ func checkEscaper(w *World, c *Check, rule string) {
 		return nil, false
 	}
 	var flushClosure *ssa.Function // set below when flushes go through a local closure
+	var flushHelperFn *ssa.Function // set below when flushes go through a package helper
 	isWriteOrFlush := func(in ssa.Instruction) (*ssa.Call, bool) {
 		if call, ok := isWrite(in); ok {
 			return call, true
 		}
 		if call, ok := in.(*ssa.Call); ok && flushClosure != nil && calledClosure(call) == flushClosure {
+			return call, true
+		}
+		if call, ok := in.(*ssa.Call); ok && flushHelperFn != nil && call.Common().StaticCallee() == flushHelperFn {
 			return call, true
 		}
 		return nil, false
@@ -98,6 +102,39 @@ func checkEscaper(w *World, c *Check, rule string) {
 				hi, ok2 := sl.High.(*ssa.Phi)
 				if ok1 && ok2 && lo.Block() == hi.Block() && lo != hi {
 					startPhi, iPhi = lo, hi
+				}
+			}
+		}
+	}
+	// third form: the conditional flush is a package helper  flush(e, s, from, to) { if from < to { e.Write(s[from:to]) } }
+	var flushHelper *ssa.Function
+	helperArgs := func(call *ssa.Call) (from, to ssa.Value, ok bool) {
+		if flushHelper == nil || call.Common().StaticCallee() != flushHelper || len(call.Common().Args) != 4 {
+			return nil, nil, false
+		}
+		return call.Common().Args[2], call.Common().Args[3], true
+	}
+	if startPhi == nil {
+		for _, b := range esc.Blocks {
+			for _, in := range b.Instrs {
+				call, ok := in.(*ssa.Call)
+				if !ok {
+					continue
+				}
+				h := call.Common().StaticCallee()
+				if h == nil || !w.InPkg(h) || h.Blocks == nil || len(h.Params) != 4 || len(call.Common().Args) != 4 {
+					continue
+				}
+				if call.Common().Args[0] != ssa.Value(buf) || call.Common().Args[1] != ssa.Value(src) {
+					continue
+				}
+				if !isGuardedFlushHelper(h) {
+					continue
+				}
+				lo, ok1 := call.Common().Args[2].(*ssa.Phi)
+				hi, ok2 := call.Common().Args[3].(*ssa.Phi)
+				if ok1 && ok2 && lo.Block() == hi.Block() && lo != hi {
+					startPhi, iPhi, flushHelper = lo, hi, h
 				}
 			}
 		}
@@ -198,6 +235,7 @@ func checkEscaper(w *World, c *Check, rule string) {
 		return
 	}
 	flushClosure = flushFn
+	flushHelperFn = flushHelper
 	H := iPhi.Block()
 	// loop body: blocks that H reaches and that reach H
 	inLoop := map[*ssa.BasicBlock]bool{}
@@ -214,6 +252,9 @@ func checkEscaper(w *World, c *Check, rule string) {
 		return ok && u.Op == token.MUL && u.X == ssa.Value(startCell)
 	}
 	isFlush := func(call *ssa.Call) bool {
+		if from, to, ok := helperArgs(call); ok {
+			return isCursor(from) && to == ssa.Value(iPhi)
+		}
 		if flushFn != nil && calledClosure(call) == flushFn {
 			return len(call.Common().Args) == 1 && call.Common().Args[0] == ssa.Value(iPhi)
 		}
@@ -382,6 +423,15 @@ func checkEscaper(w *World, c *Check, rule string) {
 		return b.Succs[0], true
 	}
 	flushed := func(at *ssa.BasicBlock) bool {
+		if flushHelper != nil {
+			for d := at; d != nil && d != H; d = d.Idom() {
+				for _, in := range d.Instrs {
+					if call, ok := in.(*ssa.Call); ok && call.Common().StaticCallee() == flushHelper && isFlush(call) {
+						return true
+					}
+				}
+			}
+		}
 		// a call of the flush closure with the scan position, in this block or a dominating one (the guard is inside it)
 		if flushFn != nil {
 			for d := at; d != nil && d != H; d = d.Idom() {
@@ -454,6 +504,21 @@ func checkEscaper(w *World, c *Check, rule string) {
 				if call, ok := isWrite(in); ok && len(call.Common().Args) == 2 {
 					if sl, ok := call.Common().Args[1].(*ssa.Slice); ok && isSrc(sl.X) && sl.Low != nil && isCursor(sl.Low) && sl.High == nil {
 						finalOK = true
+					}
+				}
+			}
+		}
+	}
+	if flushHelper != nil {
+		for _, rb := range returnBlocks(esc) {
+			for d := rb; d != nil; d = d.Idom() {
+				for _, in := range d.Instrs {
+					if call, ok := in.(*ssa.Call); ok {
+						if from, to, ok := helperArgs(call); ok && isCursor(from) {
+							if base, isLen := lenOperand(to); isLen && isSrc(base) {
+								finalOK = true
+							}
+						}
 					}
 				}
 			}
@@ -769,4 +834,47 @@ func reachesWithin(a, b, stop *ssa.BasicBlock) bool {
 		}
 	}
 	return false
+}
+
+// isGuardedFlushHelper: h(e, s, from, to) writes s[from:to] to e exactly on the true side of from < to and does nothing else.
+func isGuardedFlushHelper(h *ssa.Function) bool {
+	if len(h.Params) != 4 {
+		return false
+	}
+	e, s, from, to := h.Params[0], h.Params[1], h.Params[2], h.Params[3]
+	writes, ok := 0, true
+	for _, b := range h.Blocks {
+		for _, in := range b.Instrs {
+			call, isCall := in.(*ssa.Call)
+			if !isCall {
+				if _, isStore := in.(*ssa.Store); isStore {
+					ok = false
+				}
+				continue
+			}
+			cal := call.Common().StaticCallee()
+			if cal == nil || len(call.Common().Args) != 2 || call.Common().Args[0] != ssa.Value(e) {
+				ok = false
+				continue
+			}
+			sl, isSl := call.Common().Args[1].(*ssa.Slice)
+			if !isSl || sl.X != ssa.Value(s) || sl.Low != ssa.Value(from) || sl.High != ssa.Value(to) {
+				ok = false
+				continue
+			}
+			guarded := false
+			for _, g := range rawGuards(b) {
+				if bo, isBo := g.cond.(*ssa.BinOp); isBo && g.onTrue {
+					if (bo.Op == token.LSS && bo.X == ssa.Value(from) && bo.Y == ssa.Value(to)) || (bo.Op == token.GTR && bo.X == ssa.Value(to) && bo.Y == ssa.Value(from)) {
+						guarded = true
+					}
+				}
+			}
+			if !guarded {
+				ok = false
+			}
+			writes++
+		}
+	}
+	return ok && writes == 1
 }
